@@ -527,6 +527,62 @@ Proof.
       f_equal. apply wrap64_id. unfold two63. lia.
 Qed.
 
+(* ------------------------------------------------------------------ Range_Iter_Last as TRANSLATED from the C source
+   tools/genx_iter.py translates the two expressions Range_Iter_Last assigns to i->val (whatever their form) into
+   Generated.iter_range_last_pos / _neg, every int64 operation under wrap64.  On the box they are the model's
+   first + step*(len-1): so the model follows the source for this leaf by proof, not by text matching. *)
+Lemma rem_by_q D a q : 0 < a -> a * q <= D < a * q + a -> 0 <= q -> Z.rem D a = D - a * q.
+Proof. intros Ha H Hq. symmetry. apply (Z.rem_unique D a q); nia. Qed.
+Lemma quot_by_q D a q : 0 < a -> a * q <= D < a * q + a -> 0 <= q -> Z.quot D a = q.
+Proof. intros Ha H Hq. symmetry. apply (Z.quot_unique D a q (D - a * q)); nia. Qed.
+
+Lemma range_count_split r : in_box r -> 0 < range_count r ->
+  exists q, range_count r = q + 1 /\ 0 <= q /\ r_start r < r_stop r /\
+            Z.abs (r_step r) * q <= r_stop r - 1 - r_start r < Z.abs (r_step r) * q + Z.abs (r_step r).
+Proof.
+  intros (Hs & Ht & Hp & Hn) Hc. unfold range_count in *.
+  destruct (Z.leb_spec (r_stop r) (r_start r)); [lia|].
+  exists ((r_stop r - 1 - r_start r) / Z.abs (r_step r)).
+  assert (Ha : 0 < Z.abs (r_step r)) by lia.
+  pose proof (Z.mul_div_le (r_stop r - 1 - r_start r) _ Ha).
+  pose proof (Z.mul_succ_div_gt (r_stop r - 1 - r_start r) _ Ha).
+  assert (0 <= (r_stop r - 1 - r_start r) / Z.abs (r_step r)) by (apply Z.div_pos; lia).
+  repeat split; try lia.
+Qed.
+
+(* innermost wrap64 first: its argument is in range, by arithmetic over the hypotheses *)
+Ltac unwrap64 q :=
+  repeat match goal with
+  | |- context [wrap64 ?t] =>
+    lazymatch t with context [wrap64 _] => fail | _ => idtac end;
+    rewrite (wrap64_id t) by
+      (unfold two63;
+       repeat match goal with
+              | |- context [Z.rem ?D ?a] => rewrite (rem_by_q D a q) by lia
+              | |- context [Z.quot ?D ?a] => rewrite (quot_by_q D a q) by lia
+              end;
+       first [lia | nia | (Z.quot_rem_to_equations; nia)])
+  end.
+Ltac close_arith q :=
+  repeat match goal with
+         | |- context [Z.rem ?D ?a] => rewrite (rem_by_q D a q) by lia
+         | |- context [Z.quot ?D ?a] => rewrite (quot_by_q D a q) by lia
+         end;
+  first [reflexivity | lia | nia | (Z.quot_rem_to_equations; nia)].
+
+Lemma source_range_last_ok r : in_box r -> 0 < range_count r ->
+  (0 < r_step r -> iter_range_last_pos wrap64 (r_start r) (r_stop r) (r_step r) (range_count r) = range_val r (range_count r - 1)) /\
+  (r_step r < 0 -> iter_range_last_neg wrap64 (r_start r) (r_stop r) (r_step r) (range_count r) = range_val r (range_count r - 1)).
+Proof.
+  intros Hb Hc. destruct (range_count_split r Hb Hc) as (q & Hq & Hq0 & Hlt & Hq1 & Hq2).
+  destruct Hb as (Hs & Ht & Hp & Hn). unfold box in *. rewrite Hq. clear Hc Hq.
+  split; intros Hsg; unfold iter_range_last_pos, iter_range_last_neg, range_val.
+  - replace (0 <? r_step r) with true by (symmetry; apply Z.ltb_lt; lia). rewrite Z.abs_eq in * by lia.
+    unwrap64 q. close_arith q.
+  - replace (0 <? r_step r) with false by (symmetry; apply Z.ltb_ge; lia). rewrite Z.abs_neq in * by lia.
+    unwrap64 q. close_arith q.
+Qed.
+
 (* ------------------------------------------------------------------ Range is well-behaved *)
 Definition range_chain (r : rng) : list (cur * val) :=
   map (fun v => (CInt v, VInt v)) (range_elems r).
